@@ -459,7 +459,13 @@ func (p *printer) metric(m *Metric) {
 func Print(q Query, l Layout) string {
 	p := &printer{l: l}
 	if q.Log != nil {
+		for i := 0; i < q.LogParens; i++ {
+			p.tok("(")
+		}
 		p.logQuery(q.Log)
+		for i := 0; i < q.LogParens; i++ {
+			p.tok(")")
+		}
 	} else if q.Metric != nil {
 		p.metric(q.Metric)
 	}
